@@ -23,6 +23,7 @@ VARIABLES
   startVoters,  \* membership at the start of the current block
   dirty,        \* the membership changed since the start of the current block
   bal,          \* [Addr \cup {"ms"} -> Nat] balances of the deposit token
+  qx,           \* further query answers: [thrq, lvoters, voteq] (Threshold{}, ListVoters{}, Vote{})
   now, out,
   \* histories, one entry per proposal
   snap,         \* membership snapshot the proposal was opened against
@@ -34,8 +35,8 @@ VARIABLES
   ev
 
 hvars == <<snap, execd, closedH, held, rejEarly, sameBlk>>
-svars == <<cfg, props, voters, gtotal, startVoters, dirty, bal, now, out>>
-vars == <<cfg, props, voters, gtotal, startVoters, dirty, bal, now, out, snap, execd, closedH, held, rejEarly, sameBlk, ev>>
+svars == <<cfg, props, voters, gtotal, startVoters, dirty, bal, qx, now, out>>
+vars == <<cfg, props, voters, gtotal, startVoters, dirty, bal, qx, now, out, snap, execd, closedH, held, rejEarly, sameBlk, ev>>
 
 Expired(e, t) == IF e.k = "h" THEN t.h >= e.v ELSE IF e.k = "t" THEN t.t >= e.v ELSE FALSE
 
@@ -189,4 +190,12 @@ Recoverable(id, t) ==
   /\ p.dep.kind # "none" /\ p.dep.refund /\ held[id] = 1 /\ execd[id] = 0 /\ ~closedH[id]
   /\ Expired(p.expires, t) /\ ~PassedNow(p, t)
 C15_CloseMustSucceed == Step /\ E.act = "close" /\ Has(Pid) /\ Recoverable(Pid, now') => Ok \/ KF3q(Pid) \/ KF6(Pid)
+\* ------------------------------------------------------------------ beyond the listed properties
+\* Threshold{} reports the configured rule with the current total; ListVoters{} lists exactly the current
+\* members; Vote{id, voter} reports exactly the ballots ListVotes{} reports
+X3_ThresholdQuery == cfg.flavour \in {"fixed", "flex"} /\ qx.thrq.kind # "none" =>
+  qx.thrq = [kind |-> cfg.thr.kind, weight |-> cfg.thr.weight, p |-> cfg.thr.p, q |-> cfg.thr.q, total |-> gtotal]
+X3_ListVoters == qx.thrq.kind # "none" => qx.lvoters = {[a |-> a, w |-> voters[a]] : a \in {x \in Addr : voters[x] >= 0}}
+X3_VoteQuery == qx.voteq = {[id |-> id, voter |-> a, vote |-> props[id].ballots[a].vote, w |-> props[id].ballots[a].w] :
+                              <<id, a>> \in {pr \in Ids \X Addr : props[pr[1]].ballots[pr[2]].vote # "none"}}
 =============================================================================
